@@ -991,8 +991,10 @@ h2_parse_frame_settings (connection * const con, const uint8_t *s, uint32_t len)
                     if (diff >= 0
                         ? swin > INT32_MAX - diff
                         : swin < INT32_MIN - diff) {
-                        h2_send_rst_stream(r, con, H2_E_FLOW_CONTROL_ERROR);
-                        continue;
+                        /* RFC 9113 6.9.2: change causing any flow-control
+                         * window to exceed max size is connection error */
+                        h2_send_goaway_e(con, H2_E_FLOW_CONTROL_ERROR);
+                        return;
                     }
                     r->x.h2.swin += diff;
                 }
